@@ -108,6 +108,7 @@ def guards_rules(ctx):
 
 
 def _is_rowcount(g, base):
+    g = _push_not(g)
     a = g.single_atom()
     if a is not None and a[0] == "ite":
         return all(_is_rowcount(l, base) for _c, l in q.ite_leaves(g))
@@ -128,6 +129,7 @@ def _is_rowcount(g, base):
 
 
 def _is_multicol(g):
+    g = _push_not(g)
     """<validated or raw X>.shape[1] != 1 (possibly distributed over the container cases)."""
     a = g.single_atom()
     if a is not None and a[0] == "ite":
@@ -140,6 +142,16 @@ def _is_multicol(g):
         return False
     s = atom(sh[0])
     return T.same(c[2], s - const(1)) or T.same(c[2], const(1) - s)
+
+
+def _push_not(x):
+    """`not ite(c, A, B)` as `ite(c, not A, not B)` (negation pushed to the leaves, where comparisons absorb it)."""
+    a = x.single_atom()
+    if a is not None and a[0] == "not":
+        inner = a[1].single_atom()
+        if inner is not None and inner[0] == "ite":
+            return T.mk_ite(inner[1], _push_not(T.mk_not(inner[2])), _push_not(T.mk_not(inner[3])))
+    return x
 
 
 def _holds_for_2d(g, ndim=2):
@@ -204,10 +216,11 @@ def writers(ctx):
                 seen.add(k)
                 n += 1
                 fn = e.func
-                ok = (fn.cls is not None and fn.cls.name in BASES2 and ((fn.name == "__init__" and e.value == T.NONE) or fn.name == "_validate_X"))
+                in_validation = any(f.name == "_validate_X" and f.cls is not None and f.cls.name in BASES2 for f in e.stack)
+                ok = (fn.cls is not None and fn.cls.name in BASES2 and fn.name == "__init__" and e.value == T.NONE) or in_validation
                 ctx.ob("WR", fn.qualname, "store %s" % e.attr, ok,
                        "the established column names / width may only be set by validation (a later reset must not forget them)", e)
-    ctx.floor("stores to the validation state", n, 8)
+    ctx.floor("stores to the validation state", n, 4)
 
 
 def once(ctx):
@@ -289,6 +302,10 @@ def validate_first(ctx, cname, meth):
                 continue
             if e.callee in (("lib", "numpy.shape"), ("lib", "numpy.ndim")):
                 continue
+            if fi is not None and e.callee[0] in ("self", "static", "classmethod", "function", "closure", "explicit", "super"):
+                # an inlined function of the repository: handing it the raw argument is not a use; what its body does with
+                # the argument is in this trace too and judged there
+                continue
             terms = list(e.args) + [v for _k, v in e.kwargs]
             if "recv" in e.d:
                 terms.append(e.recv)
@@ -351,7 +368,10 @@ def commit_after_check(ctx, cname, meth):
             continue
         seen.add(k)
         cons = "state written before `raise %s` under %s" % (e.exc, _raise_kind(e))
-        ctx.ob("EXC-commit", e.func.qualname, cons if written else "no state written before `raise %s` under %s" % (e.exc, _raise_kind(e)), not written,
+        where = e.func.qualname
+        if len(e.stack) >= 2 and e.stack[-2].name == meth and e.func.cls is not None and e.func.cls.name not in BASES2 and e.func.name != meth:
+            where = e.stack[-2].qualname  # a private helper of the detector that update() calls directly: the rejection is update()'s
+        ctx.ob("EXC-commit", where, cons if written else "no state written before `raise %s` under %s" % (e.exc, _raise_kind(e)), not written,
                "a rejected call has already stored %s: later accepted inputs are then judged against a rejected one" % ", ".join(written), e, nontrivial=bool(written) or True)
 
 
@@ -396,7 +416,7 @@ def _raise_kind(e):
         if _is_rowcount(g, "Stream") or _is_rowcount(g, "Batch"):
             return "the row-count test"
     for g in gs:
-        if _is_multicol(g):
+        if _is_multicol(_push_not(g)):
             return "the univariate test"
     for g in gs:
         if _is_width_cmp(g):
@@ -415,10 +435,14 @@ def univariate(ctx, cname):
     for meth in meths:
         site = "%s.%s" % (cname, meth)
         tr = ctx.trace(cname, meth, assume={"_drift_state": None}, nonnull=("X",))
-        rs = [e for e in tr.raises() if e.func.qualname == site and e.exc == "ValueError" and len(e.stack) == 1 and any(_is_multicol(g) for g in guards(e))]
+        # the rejection may sit in update() itself or in a helper it calls (but not in the shared validators, whose
+        # column test compares with the established width)
+        rs = [e for e in tr.raises() if e.exc == "ValueError" and (e.func.qualname == site or q.stack_has(e, site)) and
+              not e.func.name.startswith("_validate_X") and not e.func.name.startswith("_validate_y") and e.func.name != "_validate_input" and
+              any(_is_multicol(_push_not(x)) for g in guards(e) for x in q.conjuncts(g))]
         ctx.ob("GRD", site, "multi-column data is rejected with ValueError (univariate detector)", len(rs) == 1, "", rs[0] if rs else None)
         for e in rs[:1]:
-            side = [x for g in guards(e) for x in q.conjuncts(g) if not _is_multicol(x)]
+            side = [x for g in guards(e) for x in q.conjuncts(g) if not _is_multicol(_push_not(x))]
             bad = [x for x in side if not _holds_for_2d(x)]
             # when the guard looks at the caller's raw argument (before validation) a 1-D input must not reach shape[1]
             raw = [x for x in side if T.mentions(x, lambda z: z[0] == "call" and z[1] == "numpy.shape" and z[2] and z[2][0] == P("X"))]
@@ -493,7 +517,7 @@ def validators(ctx):
         # the row-count refusal, distributed over the container cases
         rowg = None
         for e in rs:
-            gl = guards(e)
+            gl = [_push_not(g) for g in guards(e)]
             if len(gl) == 1 and _shape_idx(gl[0]) == 0:
                 rowg = gl[0]
         want_rowg = _distribute(rows, rows_bad)
